@@ -145,6 +145,9 @@ def geffToDataframes {α : Type} (g : InMemGeff α) : Outcome (Tables α) :=
   | .valueError => .valueError
   | .indexError => .indexError
 
+/-- a sequence of exports in one process: `geff_to_dataframes` keeps no state between calls -/
+def exportSeq {α : Type} (gs : List (InMemGeff α)) : List (Outcome (Tables α)) := gs.map geffToDataframes
+
 /-! ### the column names a property must produce (specification side; used by the theorems'
 `NoCollision` hypothesis and, through the driver, by the harness' known-finding classification) -/
 
